@@ -405,3 +405,19 @@ Definition des_cand_check (c : des_cand_case) : bool :=
   (length obs =? length model)%nat
   && forallb (fun g => existsb (N.eqb g) model) obs
   && forallb (fun g => existsb (N.eqb g) obs) model.
+
+(* -------- call histories: 2 .. 4 calls of the public functions on ONE buffer that is rewritten in place between the calls
+   (same ndarray object, same bytes under another shape / key size, alternating functions).  The functions are pure: every
+   call of the history must give what the spec says for the bytes the buffer held at that call. *)
+Inductive hist_step :=
+  | HKe (c : aes_ke_case) | HKs (c : aes_ks_case) | HInv (c : aes_inv_case) | HDk (c : des_ks_case) | HMk (c : des_mk_case).
+
+Definition hist_step_check (s : hist_step) : bool :=
+  match s with
+  | HKe c => aes_ke_check c | HKs c => aes_ks_check c | HInv c => aes_inv_check c
+  | HDk c => des_ks_check c | HMk c => des_mk_check c
+  end.
+
+Definition hist_check (l : list hist_step) : bool := forallb hist_step_check l.
+(* which calls of the history agree with the spec *)
+Definition hist_explain (l : list hist_step) : list bool := map hist_step_check l.
